@@ -17,7 +17,7 @@ def sig_from_json(d):
 
 class C04(Prop):
     id = 'C04'
-    rule_added = 'Re-use on signals that do not start at 0 (incl. consecutive recordings: the second set starts after the last stamp of the first) is compared with a fresh object on the same signals. 15% as modular specifications; half of the object re-uses put a failing call (one variable without numbers) between the two evaluations.'
+    rule_added = 'In every run 4 (thorough 64) cases with one operand sampled 70-300 times inside a single segment of the other, non-commutative operators. Re-use on signals that do not start at 0 (incl. consecutive recordings: the second set starts after the last stamp of the first) is compared with a fresh object on the same signals. 15% as modular specifications; half of the object re-uses put a failing call (one variable without numbers) between the two evaluations.'
     rule = ('random dense-time STL formulas (no prev/next/rise/fall; depth<=4; bounds multiples of 1/4) x 1..3 '
             'piecewise-constant signals with independent break-points (aligned, interleaved, single-sample, different '
             'first/last stamps; 1..8 samples each, stamps multiples of 1/4): a fresh spec evaluates them and the '
@@ -35,7 +35,7 @@ class C04(Prop):
     shrink_data = False
 
     def shrinkable(self, case):
-        return not case.get('modular')
+        return not case.get('modular') and not case.get('long')
 
     def gen(self, rng, ctx):
         c = lang.dense_cfg(rng)
@@ -251,6 +251,23 @@ class C04(Prop):
                 self.check(ctx, {'formula': f, 'signals': sig_text(lang.gen_signals(rng, names)), 'kind': 'ct'})
             done += 1
         ctx.count('enumerated-operator-interval-formulas', done)
+        # densely against sparsely sampled operands: one variable with 70..300 samples inside a single segment of the
+        # other (what a block-wise merge of the two sample lists would meet), non-commutative operators
+        N, V, C = lang.N, lang.V, lang.C
+        temps = [N('leq', x, y), N('geq', N('sub', x, y), C(1.0)), N('implies', px, py), N('since', px, py),
+                 N('until', px, py), N('geq', N('div', x, N('add', N('abs', y), C(1.0))), C(0.5)),
+                 N('and', N('leq', x, y), N('once', py, ivl=(Fr(0), Fr(2))))]
+        for k in range(4 if ctx.tier == 'quick' else max(2, 64 // ctx.nshards)):
+            if ctx.out_of_time():
+                break
+            f = rng.choice(temps)
+            m = rng.choice([70, 130, 300])
+            dense = [(Fr(i, 2), rng.choice(lang.SMALL)) for i in range(m)]
+            sparse = [(Fr(0), rng.choice(lang.SMALL)), (Fr(m, 4) + Fr(1, 4), rng.choice(lang.SMALL)),
+                      (Fr(m, 2) - Fr(1, 4), rng.choice(lang.SMALL))]
+            sig = {'x': dense, 'y': sparse} if rng.random() < 0.5 else {'x': sparse, 'y': dense}
+            self.check(ctx, {'formula': f, 'signals': sig_text(sig), 'kind': 'ct', 'long': True})
+            ctx.count('class:dense-against-sparse-operands')
 
 
 PROP = C04()
